@@ -406,9 +406,7 @@ func genLocCase(r *rand.Rand, prof string) Case {
 			l["hooks"] = true
 			l["persistent"] = true
 		}
-		if prof == "expiry" && l["kind"] == "indexed" && r.Intn(2) == 0 {
-			// (indexed state only, for now: LinearState.search/FindRules return the purge's error, which
-			// the model's [expire] does not propagate yet)
+		if prof == "expiry" && r.Intn(2) == 0 {
 			// a storage fault somewhere in the history: with luck on the purge of an expired item
 			l["fail"] = r.Intn(16)
 		}
@@ -436,7 +434,7 @@ func genLocCase(r *rand.Rand, prof string) Case {
 		}
 		return Case{"profile": prof, "locs": locs, "ops": ops, "child": true}
 	}
-	if prof == "expiry" && obj(locs[0])["kind"] == "indexed" && r.Intn(4) == 0 {
+	if prof == "expiry" && r.Intn(4) == 0 {
 		// scripted opening: the storage fails exactly on the purge of an expired item, which a
 		// search (or an event, for a rule) is the first to observe
 		obj(locs[0])["fail"] = 2
@@ -952,7 +950,9 @@ func execLoc(cases []Case) []Case {
 		sem <- true
 		go func(c Case) {
 			defer func() { <-sem; wg.Done() }()
-			if boolean(c["child"]) && os.Getenv("RH_CHILD") != "1" {
+			// (RH_FORCE_CHILD=1: every case in its own child process - bin/check retries a domain that
+			// way when the harness process itself died, so that the crash is attributed to a case)
+			if (boolean(c["child"]) || os.Getenv("RH_FORCE_CHILD") == "1") && os.Getenv("RH_CHILD") != "1" {
 				execLocInChild(c)
 				return
 			}
